@@ -1068,6 +1068,183 @@ func c52CoordClass(vals ...*big.Int) string {
 	return "coords<n"
 }
 
+// ---------------------------------------------------------------- group laws on points obtained only through Unmarshal
+
+// c52CoordDraw draws one F_p coordinate: small, at the edges of [0,p), or random.
+func c52CoordDraw(rt *rapid.T, label string) (*big.Int, string) {
+	switch c52Uni(rt, label+".cls", 3) {
+	case 0:
+		return big.NewInt(int64(c52Uni(rt, label+".small", 50))), "small"
+	case 1:
+		return new(big.Int).Set(c52Boundary[c52Uni(rt, label+".edge", len(c52Boundary))]), "edge"
+	default:
+		v := new(big.Int).SetBytes(gen.RandBytes(rt, label+".r", 32))
+		return v.Mod(v, rc.BNP), "random"
+	}
+}
+
+// caseCurvePoint: an element that exists only as an encoding built by the harness from x (y solved in the
+// reference field arithmetic) — for G2 almost never in the order-n subgroup — is decoded with Unmarshal and
+// run through scalar multiplication with the whole scalar set and through identities that hold in any
+// abelian group; the reference computes k*Q by plain double-and-add in its own affine arithmetic.
+func (e *c52Env) caseCurvePoint(rt *rapid.T) {
+	k, kc := c52Scalar(rt, "k")
+	b, _ := c52Scalar(rt, "b")
+	if e.negGuard(k, b) {
+		return
+	}
+	if c52Uni(rt, "cpGroup", 10) < 3 {
+		// ---- G1
+		var pt rc.G1Pt
+		origin := ""
+		for tries := 0; ; tries++ {
+			x, oc := c52CoordDraw(rt, "x")
+			if pts := c52G1WithX(x); len(pts) > 0 {
+				pt, origin = pts[c52Uni(rt, "root", 2)], "x-"+oc
+				break
+			}
+			e.c.Class("curvept:non-residue-skipped")
+			if tries > 40 {
+				return
+			}
+		}
+		dst, _ := c52DestG1(rt, "dst")
+		Q, ok := dst.Unmarshal(pt.Encode())
+		if !ok {
+			e.fail(rt, "G1.Unmarshal rejected the canonical encoding %x of a point on the curve (%s)", pt.Encode(), origin)
+		}
+		mk := pt.Mul(k)
+		kQ := new(bn256.G1).ScalarMult(Q, k)
+		if !bytes.Equal(kQ.Marshal(), mk.Encode()) {
+			e.fail(rt, "G1.ScalarMult(Q, %v) = %x, double-and-add gives %x; Q = Unmarshal(%x)", k, kQ.Marshal(), mk.Encode(), pt.Encode())
+		}
+		id := ""
+		switch c52Uni(rt, "cpId", 4) {
+		case 0: // k*Q + Q = (k+1)*Q
+			id = "kQ+Q=(k+1)Q"
+			if mk.Equal(pt) {
+				break
+			}
+			fresh := new(bn256.G1).ScalarMult(Q, k)
+			l := new(bn256.G1).Add(fresh, Q)
+			r := new(bn256.G1).ScalarMult(Q, new(big.Int).Add(k, big.NewInt(1)))
+			if !bytes.Equal(l.Marshal(), r.Marshal()) || !bytes.Equal(l.Marshal(), mk.Add(pt).Encode()) {
+				e.fail(rt, "G1: k*Q + Q != (k+1)*Q for k = %v, Q = Unmarshal(%x)", k, pt.Encode())
+			}
+		case 1: // (-1)*Q = Neg(Q), Q + (-Q) = infinity
+			id = "(-1)Q=Neg(Q)"
+			n1 := new(bn256.G1).ScalarMult(Q, big.NewInt(-1))
+			if e.negKnown {
+				break
+			}
+			if !bytes.Equal(n1.Marshal(), new(bn256.G1).Neg(Q).Marshal()) || !bytes.Equal(n1.Marshal(), pt.Neg().Encode()) {
+				e.fail(rt, "G1: (-1)*Q != Neg(Q) for Q = Unmarshal(%x)", pt.Encode())
+			}
+		case 2: // (k+b)*Q = k*Q + b*Q
+			id = "(a+b)Q=aQ+bQ"
+			mb := pt.Mul(b)
+			if mk.Equal(mb) {
+				break
+			}
+			l := new(bn256.G1).ScalarMult(Q, new(big.Int).Add(k, b))
+			r := new(bn256.G1).Add(new(bn256.G1).ScalarMult(Q, k), new(bn256.G1).ScalarMult(Q, b))
+			if !bytes.Equal(l.Marshal(), r.Marshal()) || !bytes.Equal(l.Marshal(), mk.Add(mb).Encode()) {
+				e.fail(rt, "G1: (a+b)*Q != a*Q + b*Q for a = %v, b = %v, Q = Unmarshal(%x)", k, b, pt.Encode())
+			}
+		default: // (k*b)*Q = k*(b*Q)
+			id = "(ab)Q=a(bQ)"
+			l := new(bn256.G1).ScalarMult(Q, new(big.Int).Mul(k, b))
+			r := new(bn256.G1).ScalarMult(new(bn256.G1).ScalarMult(Q, b), k)
+			if !bytes.Equal(l.Marshal(), r.Marshal()) || !bytes.Equal(l.Marshal(), pt.Mul(b).Mul(k).Encode()) {
+				e.fail(rt, "G1: (a*b)*Q != a*(b*Q) for a = %v, b = %v, Q = Unmarshal(%x)", k, b, pt.Encode())
+			}
+		}
+		back, ok := new(bn256.G1).Unmarshal(kQ.Marshal())
+		if !ok || !bytes.Equal(back.Marshal(), mk.Encode()) {
+			e.fail(rt, "G1: Unmarshal(Marshal(k*Q)) differs")
+		}
+		e.c.Case(true, "curvept|g1|"+origin+"|"+kc+"|"+id, "curvept:g1:"+origin, "curvept:g1:scalar:"+kc, "curvept:identity:"+id)
+		return
+	}
+	// ---- G2
+	var pt rc.G2Pt
+	origin := ""
+	for tries := 0; ; tries++ {
+		re, c0 := c52CoordDraw(rt, "xre")
+		im, c1 := c52CoordDraw(rt, "xim")
+		if pts := c52G2WithX(rc.NewFp2(re, im)); len(pts) > 0 {
+			pt, origin = pts[c52Uni(rt, "root", 2)], "x="+c0+"+"+c1+"i"
+			break
+		}
+		e.c.Class("curvept:non-residue-skipped")
+		if tries > 40 {
+			return
+		}
+	}
+	member := "outside-subgroup"
+	if pt.Mul(rc.BNN).Inf {
+		member = "in-subgroup"
+	}
+	dst, _ := c52DestG2(rt, "dst")
+	Q, ok := dst.Unmarshal(pt.Encode())
+	if !ok {
+		e.fail(rt, "G2.Unmarshal rejected the canonical encoding %x of a point on the twist (%s)", pt.Encode(), origin)
+	}
+	mk := pt.Mul(k)
+	kQ := new(bn256.G2).ScalarMult(Q, k)
+	if !bytes.Equal(kQ.Marshal(), mk.Encode()) {
+		e.fail(rt, "G2.ScalarMult(Q, %v) differs from double-and-add in the reference for Q = Unmarshal(%x) (%s): got %x want %x", k, pt.Encode(), member, kQ.Marshal(), mk.Encode())
+	}
+	id := ""
+	switch c52Uni(rt, "cpId", 4) {
+	case 0:
+		id = "kQ+Q=(k+1)Q"
+		if mk.Equal(pt) {
+			break
+		}
+		l := new(bn256.G2).Add(new(bn256.G2).ScalarMult(Q, k), Q)
+		r := new(bn256.G2).ScalarMult(Q, new(big.Int).Add(k, big.NewInt(1)))
+		if !bytes.Equal(l.Marshal(), r.Marshal()) || !bytes.Equal(l.Marshal(), mk.Add(pt).Encode()) {
+			e.fail(rt, "G2: k*Q + Q != (k+1)*Q for k = %v, Q = Unmarshal(%x) (%s)", k, pt.Encode(), member)
+		}
+	case 1:
+		id = "(-1)Q+Q=0"
+		if e.negKnown {
+			break
+		}
+		n1 := new(bn256.G2).ScalarMult(Q, big.NewInt(-1))
+		if !bytes.Equal(n1.Marshal(), pt.Neg().Encode()) {
+			e.fail(rt, "G2: (-1)*Q is not -Q for Q = Unmarshal(%x) (%s)", pt.Encode(), member)
+		}
+		if z := new(bn256.G2).Add(n1, Q); !bytes.Equal(z.Marshal(), make([]byte, 128)) {
+			e.fail(rt, "G2: (-1)*Q + Q is not the identity for Q = Unmarshal(%x) (%s)", pt.Encode(), member)
+		}
+	case 2:
+		id = "(a+b)Q=aQ+bQ"
+		mb := pt.Mul(b)
+		if mk.Equal(mb) {
+			break
+		}
+		l := new(bn256.G2).ScalarMult(Q, new(big.Int).Add(k, b))
+		r := new(bn256.G2).Add(new(bn256.G2).ScalarMult(Q, k), new(bn256.G2).ScalarMult(Q, b))
+		if !bytes.Equal(l.Marshal(), r.Marshal()) || !bytes.Equal(l.Marshal(), mk.Add(mb).Encode()) {
+			e.fail(rt, "G2: (a+b)*Q != a*Q + b*Q for a = %v, b = %v, Q = Unmarshal(%x) (%s)", k, b, pt.Encode(), member)
+		}
+	default:
+		id = "(ab)Q=a(bQ)"
+		l := new(bn256.G2).ScalarMult(Q, new(big.Int).Mul(k, b))
+		r := new(bn256.G2).ScalarMult(new(bn256.G2).ScalarMult(Q, b), k)
+		if !bytes.Equal(l.Marshal(), r.Marshal()) || !bytes.Equal(l.Marshal(), pt.Mul(b).Mul(k).Encode()) {
+			e.fail(rt, "G2: (a*b)*Q != a*(b*Q) for a = %v, b = %v, Q = Unmarshal(%x) (%s)", k, b, pt.Encode(), member)
+		}
+	}
+	back, ok := new(bn256.G2).Unmarshal(kQ.Marshal())
+	if !ok || !bytes.Equal(back.Marshal(), mk.Encode()) {
+		e.fail(rt, "G2: Unmarshal(Marshal(k*Q)) differs (%s)", member)
+	}
+	e.c.Case(true, "curvept|g2|"+origin+"|"+member+"|"+kc+"|"+id, "curvept:g2:"+origin, "curvept:g2:"+member, "curvept:g2:scalar:"+kc, "curvept:identity:"+id)
+}
+
 // ---------------------------------------------------------------- the check
 
 func TestC52(t *testing.T) {
@@ -1160,10 +1337,12 @@ func TestC52(t *testing.T) {
 
 	rapid.Check(t, func(rt *rapid.T) {
 		switch k := c52Uni(rt, "kind", 100); {
-		case k < 35:
+		case k < 30:
 			env.caseG1Encoding(rt)
-		case k < 65:
+		case k < 55:
 			env.caseG2Encoding(rt)
+		case k < 67:
+			env.caseCurvePoint(rt)
 		case k < 80:
 			env.caseG1(rt)
 		case k < 90:
